@@ -1,5 +1,5 @@
 (* C16 - lemmas about Model/Config.v (the tables come from the regenerated Gen/GenIni.v). *)
-From Coq Require Import String Ascii List NArith Bool Permutation Lia.
+From Coq Require Import String Ascii List NArith Bool Permutation Lia Sorted.
 From Pika Require Import Gen.GenIni Model.Config.
 Import ListNotations.
 Open Scope string_scope.
@@ -345,4 +345,814 @@ Proof.
     rewrite E1. rewrite Hc. unfold sq. rewrite H1, H0. cbn [orb].
     rewrite IH by assumption. f_equal.
     clear. revert c s. induction cur; intros; cbn; [reflexivity|]. f_equal. apply IHcur.
+Qed.
+
+(* ================================================================== application arguments, end to end *)
+(* the guard: characters that survive reconstruct_command_line + split_unix (model) *)
+Definition safe_char (c : ascii) : bool :=
+  negb (aeqb c c_dq || aeqb c c_sq || aeqb c c_bs || aeqb c c_dollar).
+Fixpoint all_safe (s : string) : bool :=
+  match s with EmptyString => true | String c r => safe_char c && all_safe r end.
+Definition arg_safe (s : string) : bool := nonempty s && all_safe s.
+
+Notation tokU := (tokF (aeqb c_bs) is_ws sq).
+
+Lemma app_assoc_s (a b c : string) : (a ++ b) ++ c = a ++ (b ++ c).
+Proof. induction a; cbn; congruence. Qed.
+
+Lemma safe_char_inv c : safe_char c = true ->
+  aeqb c c_dq = false /\ aeqb c c_sq = false /\ aeqb c c_bs = false /\ aeqb c c_dollar = false.
+Proof.
+  unfold safe_char. intros H. apply negb_true_iff in H.
+  apply orb_false_iff in H. destruct H as [H H4].
+  apply orb_false_iff in H. destruct H as [H H3].
+  apply orb_false_iff in H. destruct H as [H1 H2]. auto.
+Qed.
+
+Lemma safe_char_facts c : safe_char c = true ->
+  aeqb c_bs c = false /\ sq c = false.
+Proof.
+  intros H. destruct (safe_char_inv _ H) as (H1 & H2 & H3 & _). unfold sq. rewrite H1, H2.
+  split; [unfold aeqb in *; rewrite Ascii.eqb_sym; assumption|reflexivity].
+Qed.
+
+Lemma all_safe_cons c s : all_safe (String c s) = true -> safe_char c = true /\ all_safe s = true.
+Proof. cbn. apply andb_true_iff. Qed.
+
+(* inside quotes every safe character, blanks included, is copied *)
+Lemma tokF_inq : forall s cur rest, all_safe s = true ->
+  tokU (s ++ rest) true cur = tokU rest true (cur ++ s).
+Proof.
+  induction s as [|c s IH]; intros cur rest H; cbn [append].
+  - now rewrite append_empty_r.
+  - apply all_safe_cons in H. destruct H as [Hc Hs]. destruct (safe_char_facts _ Hc) as [E1 E2].
+    cbn [tokF]. rewrite E1, E2. destruct (is_ws c); rewrite IH by assumption; f_equal;
+      rewrite app_assoc_s; reflexivity.
+Qed.
+
+Lemma safe_nows_plain s : all_safe s = true -> contains c_space s = false -> contains c_tab s = false ->
+  plain s = true.
+Proof.
+  induction s as [|c s IH]; intros H Hs Ht; [reflexivity|].
+  apply all_safe_cons in H. destruct H as [Hc H]. cbn [contains] in Hs, Ht.
+  apply orb_false_iff in Hs, Ht. destruct Hs as [Hs1 Hs], Ht as [Ht1 Ht].
+  cbn [plain]. rewrite IH by assumption. rewrite andb_true_r.
+  unfold plain_char, is_ws. destruct (safe_char_inv _ Hc) as (H1 & H2 & H3 & _).
+  assert (A : aeqb c c_space = false) by (unfold aeqb in *; rewrite Ascii.eqb_sym; assumption).
+  assert (B : aeqb c c_tab = false) by (unfold aeqb in *; rewrite Ascii.eqb_sym; assumption).
+  rewrite A, B, H1, H2, H3. reflexivity.
+Qed.
+
+Lemma safe_no_dq s : all_safe s = true -> contains c_dq s = false.
+Proof.
+  induction s as [|c s IH]; intros H; [reflexivity|]. apply all_safe_cons in H. destruct H as [Hc H].
+  cbn [contains]. rewrite IH by assumption. destruct (safe_char_inv _ Hc) as (H1 & _).
+  unfold aeqb in *. rewrite Ascii.eqb_sym, H1. reflexivity.
+Qed.
+
+(* embed_in_quotes v is consumed as v, leaving the tokenizer outside quotes *)
+Lemma tokF_embed v cur rest : all_safe v = true ->
+  tokU (embed_in_quotes v ++ rest) false cur = tokU rest false (cur ++ v).
+Proof.
+  intros H. unfold embed_in_quotes. rewrite (safe_no_dq _ H).
+  destruct (contains c_space v || contains c_tab v) eqn:E.
+  - rewrite !app_assoc_s. change (String c_dq "" ++ (v ++ String c_dq "" ++ rest))
+      with (String c_dq (v ++ String c_dq rest)).
+    cbn [tokF]. change (aeqb c_bs c_dq) with false. change (is_ws c_dq) with false. change (sq c_dq) with true.
+    cbv iota. cbn [negb]. rewrite tokF_inq by assumption. cbn [tokF].
+    change (aeqb c_bs c_dq) with false. change (is_ws c_dq) with false. change (sq c_dq) with true.
+    cbv iota. reflexivity.
+  - apply orb_false_iff in E. destruct E. apply tokF_plain. apply safe_nows_plain; assumption.
+Qed.
+
+Lemma tokF_sep cur rest : tokU (String c_space rest) false cur =
+  match tokU rest false "" with Some l => Some (cur :: l) | None => None end.
+Proof. reflexivity. Qed.
+
+Definition item_token (k v : string) : string :=
+  "--" ++ k ++ (match v with EmptyString => "" | _ => "=" ++ v end).
+
+Definition omap_app (pre : list string) (o : option (list string)) : option (list string) :=
+  match o with Some l => Some (pre ++ l)%list | None => None end.
+
+Lemma omap_app_nil o : omap_app [] o = o.
+Proof. destruct o; reflexivity. Qed.
+Lemma omap_app_app a b o : omap_app a (omap_app b o) = omap_app (a ++ b)%list o.
+Proof. destruct o; cbn; [rewrite app_assoc|]; reflexivity. Qed.
+
+Lemma tokF_item k v rest : plain k = true -> all_safe v = true ->
+  tokU (add_as_option k (embed_in_quotes v) ++ rest) false "" = omap_app [item_token k v] (tokU rest false "").
+Proof.
+  intros Hk Hv. unfold add_as_option. rewrite !app_assoc_s.
+  rewrite (tokF_plain "--") by reflexivity. rewrite (tokF_plain k) by assumption.
+  destruct v as [|c v].
+  - cbn [embed_in_quotes contains orb]. cbv iota. cbn [append].
+    change (String " " rest) with (String c_space rest). rewrite tokF_sep.
+    unfold item_token. cbn [append]. rewrite append_empty_r. destruct (tokU rest false ""); reflexivity.
+  - assert (E : exists c' r', embed_in_quotes (String c v) = String c' r').
+    { unfold embed_in_quotes. destruct (contains c_space _ || contains c_tab _).
+      - destruct (contains c_dq _); cbn; eauto.
+      - eauto. }
+    destruct E as (c' & r' & E). rewrite E. rewrite <- E. clear E.
+    rewrite !app_assoc_s. rewrite (tokF_plain "=") by reflexivity.
+    rewrite tokF_embed by assumption.
+    change (" " ++ rest) with (String c_space rest). rewrite tokF_sep.
+    unfold item_token. cbn [append]. rewrite !app_assoc_s. cbn [append].
+    destruct (tokU rest false ""); reflexivity.
+Qed.
+
+Lemma concat_cons_s x xs : String.concat "" (x :: xs) = x ++ String.concat "" xs.
+Proof. destruct xs; cbn; [now rewrite append_empty_r|reflexivity]. Qed.
+
+Lemma tokF_items n vs rest : plain n = true -> Forall (fun v => all_safe v = true) vs ->
+  tokU (String.concat "" (map (fun v => add_as_option n (embed_in_quotes v)) vs) ++ rest) false "" =
+  omap_app (map (item_token n) vs) (tokU rest false "").
+Proof.
+  intros Hn. induction 1 as [|v vs Hv _ IH].
+  - cbn. now rewrite omap_app_nil.
+  - cbn [map]. rewrite concat_cons_s, app_assoc_s, tokF_item by assumption. rewrite IH.
+    rewrite omap_app_app. reflexivity.
+Qed.
+
+Definition chunk_text (p : parsed) (n : string) : string :=
+    if String.eqb n "pika:positional" then String.concat "" (map (fun v => add_as_option n (embed_in_quotes v)) (p_pos p))
+    else match kind_of n with
+         | Some 1 => match value_of n p with Some v => add_as_option n (embed_in_quotes v)
+                                           | None => if String.eqb n "pika:config" then add_as_option n "" else "" end
+         | Some 2 => String.concat "" (map (fun v => add_as_option n (embed_in_quotes v)) (values_of n p))
+         | Some 3 => if String.eqb n "pika:attach-debugger"
+                     then match value_of n p with Some v => add_as_option n (embed_in_quotes v) | None => "" end else ""
+         | _ => "" end.
+
+Definition chunk_tokens (p : parsed) (n : string) : list string :=
+    if String.eqb n "pika:positional" then map (item_token n) (p_pos p)
+    else match kind_of n with
+         | Some 1 => match value_of n p with Some v => [item_token n v]
+                                           | None => if String.eqb n "pika:config" then [item_token n ""] else [] end
+         | Some 2 => map (item_token n) (values_of n p)
+         | Some 3 => if String.eqb n "pika:attach-debugger"
+                     then match value_of n p with Some v => [item_token n v] | None => [] end else []
+         | _ => [] end.
+
+Lemma reconstruct_chunks p : reconstruct p = String.concat "" (map (chunk_text p) (vm_names p)).
+Proof. reflexivity. Qed.
+
+Definition opts_safe (p : parsed) : Prop := Forall (fun o => all_safe (snd o) = true) (p_opts p).
+
+Lemma values_of_safe n p : opts_safe p -> Forall (fun v => all_safe v = true) (values_of n p).
+Proof.
+  unfold opts_safe, values_of. intros H. induction H as [|o l Ho _ IH]; cbn; [constructor|].
+  destruct (String.eqb (fst o) n); cbn; [constructor|]; assumption.
+Qed.
+
+Lemma value_of_safe n p v : opts_safe p -> value_of n p = Some v -> all_safe v = true.
+Proof.
+  intros H E. unfold value_of in E. pose proof (values_of_safe n p H) as F.
+  destruct (values_of n p); [discriminate|]. inversion E; subst. now inversion F.
+Qed.
+
+Lemma tokF_chunk p n rest : plain n = true -> opts_safe p -> Forall (fun v => all_safe v = true) (p_pos p) ->
+  tokU (chunk_text p n ++ rest) false "" = omap_app (chunk_tokens p n) (tokU rest false "").
+Proof.
+  intros Hn Ho Hp. unfold chunk_text, chunk_tokens.
+  assert (Z : tokU ("" ++ rest) false "" = omap_app [] (tokU rest false "")) by (now rewrite omap_app_nil).
+  assert (V : forall v, value_of n p = Some v ->
+     tokU (add_as_option n (embed_in_quotes v) ++ rest) false "" = omap_app [item_token n v] (tokU rest false "")).
+  { intros v E. apply tokF_item; [assumption|]. eapply value_of_safe; eassumption. }
+  destruct (String.eqb n "pika:positional"); [apply tokF_items; assumption|].
+  destruct (kind_of n) as [[|[|[|[|k]]]]|]; try exact Z.
+  - destruct (value_of n p) eqn:E; [now apply V|].
+    destruct (String.eqb n "pika:config"); [|exact Z].
+    apply (tokF_item n "" rest Hn eq_refl).
+  - apply tokF_items; [assumption|]. now apply values_of_safe.
+  - destruct (String.eqb n "pika:attach-debugger"); [|exact Z].
+    destruct (value_of n p) eqn:E; [now apply V|exact Z].
+Qed.
+
+Lemma tokF_reconstruct p rest : Forall (fun n => plain n = true) (vm_names p) -> opts_safe p ->
+  Forall (fun v => all_safe v = true) (p_pos p) ->
+  tokU (reconstruct p ++ rest) false "" = omap_app (flat_map (chunk_tokens p) (vm_names p)) (tokU rest false "").
+Proof.
+  intros Hn Ho Hp. rewrite reconstruct_chunks. induction Hn as [|n l Hn1 _ IH].
+  - cbn. now rewrite omap_app_nil.
+  - cbn [map flat_map]. rewrite concat_cons_s, app_assoc_s, tokF_chunk by assumption. rewrite IH.
+    rewrite omap_app_app. reflexivity.
+Qed.
+
+(* ---- trim: the line travels through an ini entry *)
+Fixpoint all_blank (s : string) : bool :=
+  match s with EmptyString => true | String c r => is_ws c && all_blank r end.
+Fixpoint nobs (s : string) : bool :=
+  match s with EmptyString => true | String c r => negb (aeqb c_bs c) && nobs r end.
+
+Lemma nobs_app a b : nobs (a ++ b) = nobs a && nobs b.
+Proof. induction a; cbn; [reflexivity|]. rewrite IHa. now rewrite andb_assoc. Qed.
+
+Lemma rev_str_rev : forall s acc x, rev_str (rev_str s acc) x = rev_str acc (s ++ x).
+Proof. induction s as [|c r IH]; intros acc x; cbn; [reflexivity|]. rewrite IH. reflexivity. Qed.
+Lemma rev_str_app : forall a b acc, rev_str (a ++ b) acc = rev_str b (rev_str a acc).
+Proof. induction a as [|c r IH]; intros b acc; cbn; [reflexivity|apply IH]. Qed.
+Lemma rev_str_acc : forall s acc, rev_str s acc = rev_str s "" ++ acc.
+Proof.
+  induction s as [|c r IH]; intros acc; cbn; [reflexivity|].
+  rewrite (IH (String c acc)), (IH (String c "")), app_assoc_s. reflexivity.
+Qed.
+Lemma all_blank_rev : forall s acc, all_blank s = true -> all_blank acc = true -> all_blank (rev_str s acc) = true.
+Proof.
+  induction s as [|c r IH]; intros acc H Ha; cbn; [assumption|].
+  cbn [all_blank] in H. apply andb_true_iff in H. destruct H. apply IH; [assumption|]. cbn. now rewrite H, Ha.
+Qed.
+Lemma ltrim_split s : exists a, s = a ++ ltrim s /\ all_blank a = true.
+Proof.
+  induction s as [|c r IH]; [exists ""; split; reflexivity|].
+  cbn [ltrim]. destruct (is_ws c) eqn:E; [|exists ""; split; reflexivity].
+  destruct IH as (a & E1 & E2). exists (String c a). cbn. rewrite <- E1, E, E2. split; reflexivity.
+Qed.
+Definition rtrim (x : string) : string := rev_str (ltrim (rev_str x "")) "".
+Lemma rtrim_split x : exists b, x = rtrim x ++ b /\ all_blank b = true.
+Proof.
+  destruct (ltrim_split (rev_str x "")) as (a & E1 & E2).
+  exists (rev_str a ""). split; [|now apply all_blank_rev].
+  unfold rtrim. rewrite <- rev_str_acc, <- rev_str_app, <- E1.
+  rewrite rev_str_rev. cbn. now rewrite append_empty_r.
+Qed.
+Lemma trim_rtrim s : trim s = rtrim (ltrim s).
+Proof. reflexivity. Qed.
+
+Lemma tokF_blanks : forall b cur, all_blank b = true ->
+  tokU b false cur = Some (cur :: repeat "" (String.length b)) /\ tokU b true cur = Some [cur ++ b].
+Proof.
+  induction b as [|c b IH]; intros cur H; cbn [tokF String.length repeat]; [rewrite append_empty_r; split; reflexivity|].
+  cbn [all_blank] in H. apply andb_true_iff in H. destruct H as [Hc Hb].
+  assert (E1 : aeqb c_bs c = false).
+  { unfold is_ws in Hc. apply orb_true_iff in Hc. destruct Hc as [Hc|Hc]; apply Ascii.eqb_eq in Hc; subst; reflexivity. }
+  rewrite E1, Hc. destruct (IH "" Hb) as [A _]. destruct (IH (cur ++ String c "") Hb) as [_ B].
+  rewrite A, B. rewrite app_assoc_s. split; reflexivity.
+Qed.
+
+Lemma tokF_nonnil : forall s inq cur l, nobs s = true -> tokU s inq cur = Some l -> l <> [].
+Proof.
+  induction s as [|c s IH]; intros inq cur l Hn H; cbn [tokF] in H; [inversion H; discriminate|].
+  cbn [nobs] in Hn. apply andb_true_iff in Hn. destruct Hn as [Hc Hn]. apply negb_true_iff in Hc. rewrite Hc in H.
+  destruct (is_ws c).
+  - destruct inq; [eapply IH; eassumption|].
+    destruct (tokU s false ""); inversion H; discriminate.
+  - destruct (sq c); eapply IH; eassumption.
+Qed.
+
+Lemma filter_repeat_empty n : filter nonempty (repeat "" n) = [].
+Proof. induction n; cbn; auto. Qed.
+
+Lemma append_eq_empty a b : a ++ b = "" -> a = "" /\ b = "".
+Proof. destruct a; cbn; [auto|discriminate]. Qed.
+
+(* trailing blanks of a line that ends outside quotes only add empty tokens *)
+Lemma tokF_strip_blanks : forall s inq cur b l,
+  nobs s = true -> all_blank b = true -> tokU (s ++ b) inq cur = Some l -> last l "" = "" ->
+  exists l', tokU s inq cur = Some l' /\ filter nonempty l' = filter nonempty l.
+Proof.
+  induction s as [|c s IH]; intros inq cur b l Hn Hb H Hl.
+  - cbn [append] in H. destruct (tokF_blanks b cur Hb) as [A B]. destruct inq.
+    + rewrite B in H. inversion H; subst. cbn in Hl. apply append_eq_empty in Hl. destruct Hl; subst.
+      exists [""]. split; reflexivity.
+    + rewrite A in H. inversion H; subst. exists [cur]. split; [reflexivity|].
+      cbn [filter]. rewrite filter_repeat_empty. destruct (nonempty cur); reflexivity.
+  - cbn [nobs] in Hn. apply andb_true_iff in Hn. destruct Hn as [Hc Hn]. apply negb_true_iff in Hc.
+    cbn [append tokF] in *. rewrite Hc in *.
+    destruct (is_ws c).
+    + destruct inq; [eapply IH; eassumption|].
+      destruct (tokU (s ++ b) false "") as [l2|] eqn:E2; [|discriminate]. inversion H; subst.
+      assert (N : l2 <> []).
+      { eapply tokF_nonnil; [|exact E2]. rewrite nobs_app, Hn. cbn.
+        clear - Hb. induction b as [|d b IHb]; [reflexivity|]. cbn in *. apply andb_true_iff in Hb. destruct Hb as [Hd Hb].
+        rewrite IHb by assumption. unfold is_ws in Hd. apply orb_true_iff in Hd.
+        destruct Hd as [Hd|Hd]; apply Ascii.eqb_eq in Hd; subst; reflexivity. }
+      assert (Hl2 : last l2 "" = "") by (destruct l2; [congruence|exact Hl]).
+      destruct (IH false "" b l2 Hn Hb E2 Hl2) as (l' & A & B). rewrite A. exists (cur :: l'). split; [reflexivity|].
+      cbn [filter]. rewrite B. reflexivity.
+    + destruct (sq c); eapply IH; eassumption.
+Qed.
+
+(* ---- no backslash anywhere in the rebuilt line *)
+Lemma safe_nobs s : all_safe s = true -> nobs s = true.
+Proof.
+  induction s as [|c s IH]; intros H; [reflexivity|]. apply all_safe_cons in H. destruct H as [Hc H].
+  cbn [nobs]. rewrite IH by assumption. destruct (safe_char_facts _ Hc) as [E _]. now rewrite E.
+Qed.
+Lemma plain_nobs s : plain s = true -> nobs s = true.
+Proof.
+  induction s as [|c s IH]; intros H; [reflexivity|]. cbn [plain] in H. apply andb_true_iff in H. destruct H as [Hc H].
+  cbn [nobs]. rewrite IH by assumption. unfold plain_char in Hc. apply negb_true_iff in Hc.
+  apply orb_false_iff in Hc. destruct Hc as [_ Hc]. unfold aeqb in *. rewrite Ascii.eqb_sym, Hc. reflexivity.
+Qed.
+Lemma nobs_embed v : all_safe v = true -> nobs (embed_in_quotes v) = true.
+Proof.
+  intros H. apply safe_nobs in H. unfold embed_in_quotes.
+  destruct (contains c_space v || contains c_tab v); [|assumption].
+  destruct (contains c_dq v); rewrite !nobs_app, H; reflexivity.
+Qed.
+Lemma nobs_add_as_option k v : nobs k = true -> nobs v = true -> nobs (add_as_option k v) = true.
+Proof.
+  intros Hk Hv. unfold add_as_option. rewrite !nobs_app, Hk. destruct v; [reflexivity|].
+  rewrite nobs_app, Hv. reflexivity.
+Qed.
+Lemma nobs_concat l : Forall (fun s => nobs s = true) l -> nobs (String.concat "" l) = true.
+Proof.
+  induction 1 as [|x l Hx _ IH]; [reflexivity|]. rewrite concat_cons_s, nobs_app, Hx, IH. reflexivity.
+Qed.
+Lemma nobs_items n vs : nobs n = true -> Forall (fun v => all_safe v = true) vs ->
+  nobs (String.concat "" (map (fun v => add_as_option n (embed_in_quotes v)) vs)) = true.
+Proof.
+  intros Hn H. apply nobs_concat. induction H; cbn [map]; constructor; [|assumption].
+  apply nobs_add_as_option; [assumption|now apply nobs_embed].
+Qed.
+Lemma nobs_chunk p n : plain n = true -> opts_safe p -> Forall (fun v => all_safe v = true) (p_pos p) ->
+  nobs (chunk_text p n) = true.
+Proof.
+  intros Hn Ho Hp. apply plain_nobs in Hn. unfold chunk_text.
+  assert (V : forall v, value_of n p = Some v -> nobs (add_as_option n (embed_in_quotes v)) = true).
+  { intros v E. apply nobs_add_as_option; [assumption|]. apply nobs_embed. eapply value_of_safe; eassumption. }
+  destruct (String.eqb n "pika:positional"); [now apply nobs_items|].
+  destruct (kind_of n) as [[|[|[|[|k]]]]|]; try reflexivity.
+  - destruct (value_of n p) eqn:E; [now apply V|].
+    destruct (String.eqb n "pika:config"); [|reflexivity]. now apply nobs_add_as_option.
+  - apply nobs_items; [assumption|]. now apply values_of_safe.
+  - destruct (String.eqb n "pika:attach-debugger"); [|reflexivity].
+    destruct (value_of n p) eqn:E; [now apply V|reflexivity].
+Qed.
+Lemma nobs_reconstruct p : Forall (fun n => plain n = true) (vm_names p) -> opts_safe p ->
+  Forall (fun v => all_safe v = true) (p_pos p) -> nobs (reconstruct p) = true.
+Proof.
+  intros Hn Ho Hp. rewrite reconstruct_chunks. apply nobs_concat.
+  induction Hn; cbn [map]; constructor; [|assumption]. now apply nobs_chunk.
+Qed.
+
+Lemma esc_dq_id s : contains c_dq s = false -> esc_dq s = s.
+Proof.
+  induction s as [|c s IH]; intros H; [reflexivity|]. cbn [contains] in H. apply orb_false_iff in H. destruct H as [H1 H2].
+  cbn [esc_dq]. unfold aeqb in *. rewrite Ascii.eqb_sym, H1, IH by assumption. reflexivity.
+Qed.
+Lemma enc_embed s : all_safe s = true -> encode_and_enquote s = embed_in_quotes s.
+Proof.
+  intros H. pose proof (safe_no_dq _ H) as D. unfold encode_and_enquote, enquote, embed_in_quotes.
+  rewrite esc_dq_id, D by assumption. rewrite orb_false_r. reflexivity.
+Qed.
+
+Lemma embed_head a : arg_safe a = true -> exists c r, embed_in_quotes a = String c r /\ is_ws c = false.
+Proof.
+  unfold arg_safe. intros H. apply andb_true_iff in H. destruct H as [Hn Hs].
+  unfold embed_in_quotes. rewrite (safe_no_dq _ Hs).
+  destruct (contains c_space a || contains c_tab a) eqn:E.
+  - exists c_dq. eexists. split; reflexivity.
+  - destruct a as [|c r]; [discriminate|]. exists c, r. split; [reflexivity|].
+    apply orb_false_iff in E. destruct E as [E1 E2]. cbn [contains] in E1, E2.
+    apply orb_false_iff in E1, E2. destruct E1 as [E1 _], E2 as [E2 _].
+    unfold is_ws, aeqb in *. rewrite Ascii.eqb_sym, E1, Ascii.eqb_sym, E2. reflexivity.
+Qed.
+
+Lemma filter_all {A} (f : A -> bool) l : Forall (fun x => f x = true) l -> filter f l = l.
+Proof. induction 1 as [|x l Hx _ IH]; cbn; [reflexivity|]. now rewrite Hx, IH. Qed.
+
+Lemma prefix_empty x : String.prefix "" x = true.
+Proof. destruct x; reflexivity. Qed.
+Lemma item_token_dd k v : starts "--" (item_token k v) = true.
+Proof. unfold item_token, starts. cbn. apply prefix_empty. Qed.
+
+Lemma chunk_tokens_dd p n : Forall (fun t => starts "--" t = true) (chunk_tokens p n).
+Proof.
+  assert (M : forall vs, Forall (fun t => starts "--" t = true) (map (item_token n) vs)).
+  { induction vs; cbn [map]; constructor; [apply item_token_dd|assumption]. }
+  unfold chunk_tokens. destruct (String.eqb n "pika:positional"); [apply M|].
+  destruct (kind_of n) as [[|[|[|[|k]]]]|]; try constructor.
+  - destruct (value_of n p); [repeat constructor; apply item_token_dd|].
+    destruct (String.eqb n "pika:config"); repeat constructor; apply item_token_dd.
+  - apply M.
+  - destruct (String.eqb n "pika:attach-debugger"); [|constructor].
+    destruct (value_of n p); repeat constructor; apply item_token_dd.
+Qed.
+
+Lemma starts_dd_nonempty t : starts "--" t = true -> nonempty t = true.
+Proof. destruct t; [discriminate|reflexivity]. Qed.
+
+Lemma split_unix_of s l : tokU s false "" = Some l -> s <> "" -> split_unix s = Some (filter nonempty l).
+Proof.
+  intros H N. unfold split_unix, tokenize. destruct s; [congruence|].
+  change (fun c => aeqb c c_dq || aeqb c c_sq) with sq. rewrite H. reflexivity.
+Qed.
+
+(* the rebuilt, trimmed line splits into argv[0] and one token per written option *)
+Lemma split_rebuilt_line arg0 p :
+  arg_safe arg0 = true -> Forall (fun n => plain n = true) (vm_names p) -> opts_safe p ->
+  Forall (fun v => all_safe v = true) (p_pos p) ->
+  split_unix (trim (encode_and_enquote arg0 ++ " " ++ reconstruct p ++ " ")) =
+  Some (arg0 :: flat_map (chunk_tokens p) (vm_names p)).
+Proof.
+  intros Ha Hn Ho Hp.
+  assert (Has : all_safe arg0 = true) by (unfold arg_safe in Ha; apply andb_true_iff in Ha; tauto).
+  assert (Hne : nonempty arg0 = true) by (unfold arg_safe in Ha; apply andb_true_iff in Ha; tauto).
+  rewrite enc_embed by assumption.
+  set (items := flat_map (chunk_tokens p) (vm_names p)).
+  set (line0 := embed_in_quotes arg0 ++ " " ++ reconstruct p ++ " ").
+  assert (T0 : tokU line0 false "" = Some (arg0 :: items ++ [""; ""])%list).
+  { unfold line0. rewrite tokF_embed by assumption. change (" " ++ reconstruct p ++ " ") with (String c_space (reconstruct p ++ " ")).
+    rewrite tokF_sep, tokF_reconstruct by assumption. reflexivity. }
+  assert (L0 : ltrim line0 = line0).
+  { unfold line0. destruct (embed_head _ Ha) as (c & r & E & W). rewrite E. cbn [append ltrim]. now rewrite W. }
+  assert (N0 : nobs line0 = true).
+  { unfold line0. rewrite !nobs_app, nobs_embed, nobs_reconstruct by assumption. reflexivity. }
+  rewrite trim_rtrim, L0. destruct (rtrim_split line0) as (b & E & Hb).
+  rewrite E in T0, N0. rewrite nobs_app in N0. apply andb_true_iff in N0. destruct N0 as [N0 _].
+  destruct (tokF_strip_blanks _ _ _ _ _ N0 Hb T0) as (l' & A & B).
+  { change (arg0 :: items ++ [""; ""])%list with ((arg0 :: items) ++ [""] ++ [""])%list.
+    rewrite app_assoc. apply last_last. }
+  assert (NE : rtrim line0 <> "").
+  { intros Er. rewrite Er in A. cbn in A. inversion A; subst. cbn in B. rewrite Hne in B. discriminate. }
+  rewrite (split_unix_of _ _ A NE), B.
+  cbn [filter]. rewrite Hne, filter_app. cbn [filter nonempty]. rewrite app_nil_r. f_equal. f_equal.
+    apply filter_all. unfold items. clear -p. induction (vm_names p) as [|n l IH]; cbn [flat_map]; [constructor|].
+    apply Forall_app. split; [|assumption].
+    eapply Forall_impl; [|apply chunk_tokens_dd]. intros t. apply starts_dd_nonempty.
+Qed.
+
+(* ---- init_helper's filter on the tokens *)
+Definition tbl : list string := map fst pika_options.
+Definition POS := "pika:positional".
+Definition differ (a b : string) : bool := negb (String.prefix a b) && negb (String.prefix b a).
+
+Lemma tbl_plain : forallb plain tbl = true. Proof. vm_compute. reflexivity. Qed.
+Lemma tbl_pika : forallb (starts "pika:") tbl = true. Proof. vm_compute. reflexivity. Qed.
+Lemma tbl_pos : forallb (fun k => String.eqb k POS || differ POS k) tbl = true. Proof. vm_compute. reflexivity. Qed.
+
+Lemma prefix_append : forall p s x, String.prefix p s = true -> String.prefix p (s ++ x) = true.
+Proof.
+  induction p as [|c p IH]; intros s x H; [apply prefix_empty|].
+  destruct s as [|d s]; [discriminate|]. cbn in *. destruct (ascii_dec c d); [|discriminate]. now apply IH.
+Qed.
+Lemma prefix_differ : forall a b x, String.prefix a b = false -> String.prefix b a = false -> String.prefix a (b ++ x) = false.
+Proof.
+  induction a as [|c a IH]; intros b x H1 H2; [now rewrite prefix_empty in H1|].
+  destruct b as [|d b]; [now rewrite prefix_empty in H2|]. cbn in *.
+  destruct (ascii_dec c d) as [->|N].
+  - destruct (ascii_dec d d); [|congruence]. now apply IH.
+  - reflexivity.
+Qed.
+Lemma split_at_app c : forall a b, contains c a = false -> split_at c (a ++ String c b) = Some (a, b).
+Proof.
+  induction a as [|d a IH]; intros b H; cbn [append split_at].
+  - unfold aeqb. now rewrite Ascii.eqb_refl.
+  - cbn [contains] in H. apply orb_false_iff in H. destruct H as [H1 H2]. rewrite H1, IH by assumption. reflexivity.
+Qed.
+
+Lemma af_cons t l : app_filter (t :: l) = (app_filter [t] ++ app_filter l)%list.
+Proof. unfold app_filter. cbn [flat_map]. now rewrite app_nil_r. Qed.
+
+Lemma af_other n v : In n tbl -> n <> POS -> app_filter [item_token n v] = [].
+Proof.
+  intros Hin Hne. pose proof tbl_pika as P. pose proof tbl_pos as D. rewrite forallb_forall in P, D.
+  specialize (P n Hin). specialize (D n Hin). cbv beta in D. apply String.eqb_neq in Hne. rewrite Hne in D. cbn [orb] in D.
+  unfold differ in D. apply andb_true_iff in D. destruct D as [D1 D2]. apply negb_true_iff in D1, D2.
+  unfold app_filter. cbn [flat_map]. rewrite app_nil_r. unfold item_token, starts in *.
+  change ("--" ++ n ++ match v with "" => "" | String _ _ => "=" ++ v end)
+    with (String "-" (String "-" (n ++ match v with "" => "" | String _ _ => "=" ++ v end))).
+  assert (A : String.prefix "--pika:" (String "-" (String "-" (n ++ match v with "" => "" | String _ _ => "=" ++ v end))) = true).
+  { cbn. now apply prefix_append. }
+  assert (B : String.prefix "--pika:positional" (String "-" (String "-" (n ++ match v with "" => "" | String _ _ => "=" ++ v end))) = false).
+  { cbn. now apply prefix_differ. }
+  rewrite A, B. reflexivity.
+Qed.
+
+Lemma af_pos v : nonempty v = true -> app_filter [item_token POS v] = [v].
+Proof.
+  intros H. destruct v as [|c v]; [discriminate|]. unfold app_filter. cbn [flat_map]. rewrite app_nil_r.
+  unfold item_token, POS, starts.
+  change ("--" ++ "pika:positional" ++ "=" ++ String c v) with ("--pika:positional" ++ String c_eq (String c v)).
+  rewrite (prefix_append "--pika:" "--pika:positional") by reflexivity.
+  rewrite (prefix_append "--pika:positional" "--pika:positional") by reflexivity.
+  rewrite split_at_app by reflexivity. reflexivity.
+Qed.
+
+Lemma af_all_other l : Forall (fun t => app_filter [t] = []) l -> app_filter l = [].
+Proof. induction 1 as [|t l Ht _ IH]; [reflexivity|]. now rewrite af_cons, Ht, IH. Qed.
+
+Lemma af_chunk p n : In n tbl -> Forall (fun v => nonempty v = true) (p_pos p) ->
+  app_filter (chunk_tokens p n) = if String.eqb n POS then p_pos p else [].
+Proof.
+  intros Hin Hp. unfold chunk_tokens. fold POS. destruct (String.eqb n POS) eqn:E.
+  - apply String.eqb_eq in E. subst n. induction Hp as [|v l Hv _ IH]; [reflexivity|].
+    cbn [map]. rewrite af_cons, af_pos, IH by assumption. reflexivity.
+  - apply String.eqb_neq in E. apply af_all_other.
+    assert (M : forall vs, Forall (fun t => app_filter [t] = []) (map (item_token n) vs)).
+    { induction vs; cbn [map]; constructor; [now apply af_other|assumption]. }
+    destruct (kind_of n) as [[|[|[|[|k]]]]|]; try constructor.
+    + destruct (value_of n p); [repeat constructor; now apply af_other|].
+      destruct (String.eqb n "pika:config"); repeat constructor; now apply af_other.
+    + apply M.
+    + destruct (String.eqb n "pika:attach-debugger"); [|constructor].
+      destruct (value_of n p); repeat constructor; now apply af_other.
+Qed.
+
+Lemma af_app a b : app_filter (a ++ b) = (app_filter a ++ app_filter b)%list.
+Proof. unfold app_filter. apply flat_map_app. Qed.
+
+Lemma af_names p names : Forall (fun n => In n tbl) names -> Forall (fun v => nonempty v = true) (p_pos p) ->
+  app_filter (flat_map (chunk_tokens p) names) = flat_map (fun n => if String.eqb n POS then p_pos p else []) names.
+Proof.
+  intros H Hp. induction H as [|n l Hn _ IH]; [reflexivity|].
+  cbn [flat_map]. rewrite af_app, af_chunk, IH by assumption. reflexivity.
+Qed.
+
+Lemma flat_map_single {A} (x : string) (v : list A) l : NoDup l -> In x l ->
+  flat_map (fun n => if String.eqb n x then v else []) l = v.
+Proof.
+  induction 1 as [|n l Hn ND IH]; intros Hin; [destruct Hin|]. cbn [flat_map].
+  destruct Hin as [->|Hin].
+  - rewrite String.eqb_refl. 
+    assert (Z : flat_map (fun n => if String.eqb n x then v else []) l = []).
+    { clear - Hn. induction l as [|m l IH]; [reflexivity|]. cbn [flat_map].
+      destruct (String.eqb m x) eqn:E; [apply String.eqb_eq in E; subst; exfalso; apply Hn; now left|].
+      apply IH. intros H. apply Hn. now right. }
+    rewrite Z. apply app_nil_r.
+  - destruct (String.eqb n x) eqn:E; [apply String.eqb_eq in E; subst; contradiction|]. now apply IH.
+Qed.
+
+Lemma flat_map_none {A} (f : string -> list A) l : (forall n, f n = []) -> flat_map f l = [].
+Proof. intros H. induction l; cbn; [reflexivity|]. now rewrite H, IHl. Qed.
+
+(* ---- vm_names: std::map order over the (finite) table of registered option names *)
+Definition ltS (a b : string) : Prop := String.ltb a b = true.
+Lemma tbl_trans : forallb (fun a => forallb (fun b => forallb (fun c =>
+   implb (String.ltb a b && String.ltb b c) (String.ltb a c)) tbl) tbl) tbl = true.
+Proof. vm_compute. reflexivity. Qed.
+Lemma tbl_total : forallb (fun a => forallb (fun b => String.eqb a b || String.ltb b a || String.ltb a b) tbl) tbl = true.
+Proof. vm_compute. reflexivity. Qed.
+Lemma tbl_irrefl : forallb (fun a => negb (String.ltb a a)) tbl = true.
+Proof. vm_compute. reflexivity. Qed.
+
+Lemma ltS_trans a b c : In a tbl -> In b tbl -> In c tbl -> ltS a b -> ltS b c -> ltS a c.
+Proof.
+  intros Ha Hb Hc H1 H2. pose proof tbl_trans as T. rewrite forallb_forall in T. specialize (T a Ha).
+  rewrite forallb_forall in T. specialize (T b Hb). rewrite forallb_forall in T. specialize (T c Hc).
+  unfold ltS in *. rewrite H1, H2 in T. exact T.
+Qed.
+
+Lemma insert_sorted_in x n l : In x (insert_sorted n l) <-> x = n \/ In x l.
+Proof.
+  induction l as [|a l IH]; cbn [insert_sorted]; [cbn; intuition|].
+  destruct (String.eqb a n) eqn:E.
+  - apply String.eqb_eq in E. subst. cbn. intuition.
+  - destruct (String.ltb n a); cbn; [intuition|]. rewrite IH. intuition.
+Qed.
+
+Definition srt (l : list string) : Prop := StronglySorted ltS l /\ Forall (fun n => In n tbl) l.
+
+Lemma insert_sorted_srt n l : In n tbl -> srt l -> srt (insert_sorted n l).
+Proof.
+  intros Hn [S F]. split.
+  2:{ apply Forall_forall. intros x Hx. apply insert_sorted_in in Hx. destruct Hx as [->|Hx]; [assumption|].
+      rewrite Forall_forall in F. now apply F. }
+  induction S as [|a l S IH Ha]; cbn [insert_sorted]; [repeat constructor|].
+  inversion F as [|? ? Fa Fl]; subst.
+  destruct (String.eqb a n) eqn:E; [constructor; assumption|].
+  destruct (String.ltb n a) eqn:L.
+  - constructor; [constructor; assumption|]. constructor; [exact L|].
+    rewrite Forall_forall in *. intros x Hx. eapply (ltS_trans n a x); auto.
+  - constructor; [apply IH; assumption|].
+    apply Forall_forall. intros x Hx. apply insert_sorted_in in Hx. destruct Hx as [->|Hx].
+    + pose proof tbl_total as T. rewrite forallb_forall in T. specialize (T a Fa). rewrite forallb_forall in T.
+      specialize (T n Hn). cbv beta in T. rewrite E, L in T. exact T.
+    + rewrite Forall_forall in Ha. now apply Ha.
+Qed.
+
+Lemma srt_nodup l : srt l -> NoDup l.
+Proof.
+  intros [S F]. induction S as [|a l S IH Ha]; constructor.
+  - inversion F; subst. intros Hin. rewrite Forall_forall in Ha. specialize (Ha a Hin).
+    pose proof tbl_irrefl as T. rewrite forallb_forall in T. specialize (T a H1). unfold ltS in Ha. now rewrite Ha in T.
+  - inversion F; subst. now apply IH.
+Qed.
+
+Definition opts_named (p : parsed) : Prop := Forall (fun o => In (fst o) tbl) (p_opts p).
+
+Lemma fold_insert_srt (os : list (string * string)) : Forall (fun o => In (fst o) tbl) os ->
+  forall acc, srt acc -> srt (fold_left (fun acc o => insert_sorted (fst o) acc) os acc).
+Proof. induction 1 as [|o os Ho _ IH]; intros acc H; cbn [fold_left]; [assumption|]. apply IH. now apply insert_sorted_srt. Qed.
+
+Lemma fold_insert_in (os : list (string * string)) x : forall acc, In x acc ->
+  In x (fold_left (fun acc o => insert_sorted (fst o) acc) os acc).
+Proof. induction os as [|o os IH]; intros acc H; cbn [fold_left]; [assumption|]. apply IH. apply insert_sorted_in. now right. Qed.
+
+Lemma in_tbl_b x : existsb (String.eqb x) tbl = true -> In x tbl.
+Proof. intros H. apply existsb_exists in H. destruct H as (y & Hy & E). apply String.eqb_eq in E. now subst. Qed.
+
+Lemma vm_names_srt p : opts_named p -> srt (vm_names p).
+Proof.
+  intros H. unfold vm_names. apply fold_insert_srt; [assumption|].
+  apply insert_sorted_srt; [apply in_tbl_b; vm_compute; reflexivity|].
+  destruct (p_pos p); split; try (constructor; fail).
+  - constructor; constructor.
+  - constructor; [apply in_tbl_b; vm_compute; reflexivity|constructor].
+Qed.
+
+Lemma vm_names_pos p : p_pos p <> [] -> In POS (vm_names p).
+Proof.
+  intros H. unfold vm_names. apply fold_insert_in. apply insert_sorted_in. right.
+  destruct (p_pos p); [congruence|]. now left.
+Qed.
+
+Lemma srt_plain l : srt l -> Forall (fun n => plain n = true) l.
+Proof.
+  intros [_ F]. eapply Forall_impl; [|exact F]. intros n Hn. pose proof tbl_plain as P.
+  rewrite forallb_forall in P. now apply P.
+Qed.
+
+(* ---- what the parser puts into p_pos / p_opts *)
+Definition pinv (p : parsed) : Prop :=
+  Forall (fun v => arg_safe v = true) (p_pos p) /\ opts_safe p /\ opts_named p.
+
+Lemma arg_safe_all s : arg_safe s = true -> all_safe s = true.
+Proof. unfold arg_safe. intros H. apply andb_true_iff in H. tauto. Qed.
+Lemma all_safe_drop : forall n s, all_safe s = true -> all_safe (drop n s) = true.
+Proof.
+  induction n as [|n IH]; intros s H; [destruct s; exact H|]. destruct s as [|c s]; [reflexivity|].
+  cbn [drop]. apply IH. apply all_safe_cons in H. tauto.
+Qed.
+Lemma split_at_safe c : forall s a b, split_at c s = Some (a, b) -> all_safe s = true -> all_safe b = true.
+Proof.
+  induction s as [|d s IH]; intros a b H Hs; [discriminate|]. cbn [split_at] in H.
+  apply all_safe_cons in Hs. destruct Hs as [_ Hs].
+  destruct (aeqb c d); [inversion H; subst; assumption|].
+  destruct (split_at c s) as [[a' b']|]; [|discriminate]. inversion H; subst. eapply IH; eauto.
+Qed.
+Lemma lookup_found_in name cn k : lookup_opt name = LFound cn k -> In cn tbl.
+Proof.
+  unfold lookup_opt, kind_of. destruct (find _ pika_options) as [e|] eqn:F.
+  - intros H. inversion H; subst. apply find_some in F. destruct F as [Hin E]. apply String.eqb_eq in E. subst.
+    unfold tbl. now apply in_map.
+  - destruct (filter _ pika_options) as [|e [|e' l]] eqn:Fl; try discriminate. intros H. inversion H; subst.
+    assert (Hin : In e (filter (fun p => starts name (fst p)) pika_options)) by (rewrite Fl; now left).
+    apply filter_In in Hin. unfold tbl. apply in_map. tauto.
+Qed.
+
+Lemma pinv_add_pos t p : arg_safe t = true -> pinv p -> pinv (add_pos t p).
+Proof. intros Ht (A & B & C). repeat split; try assumption. unfold add_pos. cbn [p_pos]. apply Forall_app. split; [assumption|constructor; [assumption|constructor]]. Qed.
+Lemma pinv_add_unreg t p : pinv p -> pinv (add_unreg t p).
+Proof. intros (A & B & C). repeat split; assumption. Qed.
+Lemma pinv_add_opt cn v p : In cn tbl -> all_safe v = true -> pinv p -> pinv (add_opt cn v p).
+Proof.
+  intros Hc Hv (A & B & C). repeat split; try assumption.
+  - unfold opts_safe, add_opt. cbn [p_opts]. apply Forall_app. split; [assumption|constructor; [assumption|constructor]].
+  - unfold opts_named, add_opt. cbn [p_opts]. apply Forall_app. split; [assumption|constructor; [assumption|constructor]].
+Qed.
+
+Lemma parse_inv : forall fuel ts term p q,
+  parse_tokens fuel ts term p = inl q -> Forall (fun t => arg_safe t = true) ts -> pinv p -> pinv q.
+Proof.
+  induction fuel as [|fuel IH]; intros ts term p q H Hts Hp; [discriminate|].
+  cbn [parse_tokens] in H. destruct ts as [|t r]; [inversion H; subst; exact Hp|].
+  inversion Hts as [|? ? Ht Hr]; subst.
+  pose proof (pinv_add_pos t p Ht Hp) as P1. pose proof (pinv_add_unreg t p Hp) as P2.
+  pose proof (fun cn v => pinv_add_opt cn v p) as P3.
+  pose proof (arg_safe_all _ Ht) as Hta.
+  destruct term; [eapply IH; eauto|].
+  destruct (String.eqb t "--"); [eapply IH; eauto|].
+  destruct (starts "--" t).
+  - assert (Hr' : forall v r', r = v :: r' -> all_safe v = true /\ Forall (fun t => arg_safe t = true) r').
+    { intros v r' ->. inversion Hr; subst. split; [now apply arg_safe_all|assumption]. }
+    destruct (split_at c_eq (drop 2 t)) as [[a b]|] eqn:Es.
+    + pose proof (split_at_safe _ _ _ _ Es (all_safe_drop 2 _ Hta)) as Hb.
+      destruct (lookup_opt a) as [cn k| |] eqn:El; [|eapply IH; eauto|discriminate].
+      pose proof (lookup_found_in _ _ _ El) as Hcn.
+      destruct k as [|k]; [discriminate|]. destruct b as [|c b]; [destruct k as [|[|[|k]]]; discriminate|].
+      destruct k as [|[|[|k]]]; (eapply IH; [exact H|assumption|apply P3; assumption]).
+    + destruct (lookup_opt (drop 2 t)) as [cn k| |] eqn:El; [|eapply IH; eauto|discriminate].
+      pose proof (lookup_found_in _ _ _ El) as Hcn.
+      destruct k as [|[|[|[|k]]]].
+      * eapply IH; [exact H|assumption|apply P3; auto].
+      * destruct r as [|v r']; [discriminate|]. destruct (Hr' v r' eq_refl). eapply IH; [exact H|assumption|apply P3; auto].
+      * destruct r as [|v r']; [discriminate|]. destruct (Hr' v r' eq_refl). eapply IH; [exact H|assumption|apply P3; auto].
+      * destruct r as [|v r']; [eapply IH; [exact H|assumption|apply P3; auto]|].
+        destruct (Hr' v r' eq_refl). destruct (is_plain v); (eapply IH; [exact H|auto|apply P3; auto]).
+      * destruct r as [|v r']; [discriminate|]. destruct (Hr' v r' eq_refl). eapply IH; [exact H|assumption|apply P3; auto].
+  - destruct (starts "@" t); [discriminate|].
+    destruct (starts "-" t); [|eapply IH; eauto].
+    destruct (String.eqb t "-"); eapply IH; eauto.
+Qed.
+
+(* ---- putting it together *)
+Lemma handle_started_argv env p cfg m ok f a c :
+  handle env p cfg m ok f a = Started c -> a tt = inl (Some (c_argv c)).
+Proof.
+  unfold handle. remember (a tt) as r eqn:Er. intros H.
+  repeat match type of H with
+         | (if ?b then _ else _) = _ => destruct b; try discriminate
+         | (let '(_, _) := ?x in _) = _ => destruct x
+         | match ?x with _ => _ end = _ => destruct x; try discriminate
+         end.
+  inversion H; subst. reflexivity.
+Qed.
+
+Lemma run_started_argv env m arg0 args c : run env m arg0 args = Started c ->
+  exists pre p, tok_prepend (builtin env "pika.commandline.prepend_options") = Some pre /\
+    parse_tokens (S (length (pre ++ args))) (pre ++ args) false p_empty = inl p /\
+    app_argv arg0 (builtin env "pika.commandline.prepend_options") args p = inl (Some (c_argv c)).
+Proof.
+  unfold run. intros H.
+  destruct (tok_prepend _) as [pre|]; [|discriminate].
+  destruct (parse_tokens _ _ false p_empty) as [p|[|]] eqn:Ep; try discriminate.
+  destruct (dup_in [] (p_opts p)); [discriminate|].
+  destruct (negb (numeric_ok p)); [discriminate|].
+  destruct (existsb _ (p_opts p)); [discriminate|].
+  match type of H with (if ?b then _ else _) = _ => destruct b; [discriminate|] end.
+  apply handle_started_argv in H. exists pre, p. repeat split; assumption.
+Qed.
+
+Lemma pinv_empty : pinv p_empty.
+Proof. repeat split; constructor. Qed.
+
+Theorem app_args_unchanged env m arg0 args pre c :
+  tok_prepend (builtin env "pika.commandline.prepend_options") = Some pre ->
+  arg_safe arg0 = true -> forallb arg_safe (pre ++ args) = true ->
+  run env m arg0 args = Started c ->
+  exists p, parse_tokens (S (length (pre ++ args))) (pre ++ args) false p_empty = inl p /\
+            p_unreg p = [] /\ c_argv c = p_pos p.
+Proof.
+  intros Hpre Ha Hs Hrun. destruct (run_started_argv _ _ _ _ _ Hrun) as (pre' & p & E1 & E2 & E3).
+  rewrite Hpre in E1. inversion E1; subst pre'. exists p. split; [assumption|].
+  assert (I : pinv p).
+  { eapply parse_inv; [exact E2| |exact pinv_empty]. apply Forall_forall. rewrite forallb_forall in Hs. exact Hs. }
+  destruct I as (Ipos & Isafe & Inamed).
+  unfold app_argv in E3. destruct (p_unreg p) eqn:Eu; [|discriminate]. split; [reflexivity|].
+  destruct (negb (late_line_ok _ _ _)); [discriminate|].
+  pose proof (vm_names_srt p Inamed) as S.
+  assert (Ipos_s : Forall (fun v => all_safe v = true) (p_pos p)).
+  { eapply Forall_impl; [|exact Ipos]. intros v. apply arg_safe_all. }
+  assert (Ipos_n : Forall (fun v => nonempty v = true) (p_pos p)).
+  { eapply Forall_impl; [|exact Ipos]. intros v Hv. unfold arg_safe in Hv. apply andb_true_iff in Hv. tauto. }
+  rewrite (split_rebuilt_line arg0 p Ha (srt_plain _ S) Isafe Ipos_s) in E3.
+  inversion E3 as [E]. cbn [tl]. rewrite af_names by (assumption || apply S).
+  destruct (p_pos p) as [|v0 l0] eqn:Ep.
+  - apply flat_map_none. intros n. destruct (String.eqb n POS); reflexivity.
+  - rewrite <- Ep in *. apply flat_map_single; [apply srt_nodup; assumption|].
+    apply vm_names_pos. rewrite Ep. discriminate.
+Qed.
+
+(* ---- which arguments are positional, for command lines written in the --name=value style *)
+Fixpoint app_words (ts : list string) : list string :=
+  match ts with
+  | [] => []
+  | t :: r => if String.eqb t "--" then r
+              else if starts "-" t && negb (String.eqb t "-") then app_words r
+              else t :: app_words r
+  end.
+Fixpoint eq_style (ts : list string) : bool :=
+  match ts with
+  | [] => true
+  | t :: r => if String.eqb t "--" then true
+              else (if starts "--" t then match split_at c_eq (drop 2 t) with Some _ => true | None => false end else true)
+                   && eq_style r
+  end.
+
+Lemma parse_pos_term : forall fuel ts p q, parse_tokens fuel ts true p = inl q -> p_pos q = (p_pos p ++ ts)%list.
+Proof.
+  induction fuel as [|fuel IH]; intros ts p q H; [discriminate|]. cbn [parse_tokens] in H.
+  destruct ts as [|t r]; [inversion H; subst; now rewrite app_nil_r|].
+  apply IH in H. rewrite H. unfold add_pos. cbn [p_pos]. now rewrite <- app_assoc.
+Qed.
+
+Lemma starts_dd_d t : starts "--" t = true -> starts "-" t = true /\ String.eqb t "-" = false.
+Proof.
+  unfold starts. intros H. destruct t as [|c [|d t]]; cbn [String.prefix] in H; try discriminate.
+  - destruct (ascii_dec "-" c); discriminate.
+  - destruct (ascii_dec "-" c) as [<-|]; [|discriminate]. split; [|reflexivity].
+    cbn [String.prefix]. destruct (ascii_dec "-" "-"); [reflexivity|congruence].
+Qed.
+
+Lemma parse_pos_spec : forall fuel ts p q, eq_style ts = true ->
+  parse_tokens fuel ts false p = inl q -> p_pos q = (p_pos p ++ app_words ts)%list.
+Proof.
+  induction fuel as [|fuel IH]; intros ts p q He H; [discriminate|]. cbn [parse_tokens] in H.
+  destruct ts as [|t r]; [inversion H; subst; now rewrite app_nil_r|].
+  cbn [eq_style app_words] in *.
+  destruct (String.eqb t "--") eqn:Edd; [now apply parse_pos_term in H|].
+  apply andb_true_iff in He. destruct He as [He1 He2].
+  destruct (starts "--" t) eqn:Es.
+  - destruct (starts_dd_d _ Es) as [S1 S2]. rewrite S1, S2. cbn [negb andb].
+    destruct (split_at c_eq (drop 2 t)) as [[a b]|]; [|discriminate].
+    destruct (lookup_opt a) as [cn k| |]; [|apply IH in H; assumption|discriminate].
+    destruct k as [|k]; [discriminate|]. destruct b as [|c b]; [destruct k as [|[|[|k]]]; discriminate|].
+    destruct k as [|[|[|k]]]; (apply IH in H; assumption).
+  - destruct (starts "@" t); [discriminate|].
+    destruct (starts "-" t); cbn [andb].
+    + destruct (String.eqb t "-"); cbn [negb]; apply IH in H; try assumption.
+      rewrite H. unfold add_pos. cbn [p_pos]. now rewrite <- app_assoc.
+    + apply IH in H; [|assumption]. rewrite H. unfold add_pos. cbn [p_pos]. now rewrite <- app_assoc.
+Qed.
+
+Theorem app_args_unchanged_eq_style env m arg0 args pre c :
+  tok_prepend (builtin env "pika.commandline.prepend_options") = Some pre ->
+  arg_safe arg0 = true -> forallb arg_safe (pre ++ args) = true -> eq_style (pre ++ args) = true ->
+  run env m arg0 args = Started c -> c_argv c = app_words (pre ++ args).
+Proof.
+  intros Hpre Ha Hs He Hrun. destruct (app_args_unchanged _ _ _ _ _ _ Hpre Ha Hs Hrun) as (p & E & _ & ->).
+  apply parse_pos_spec in E; assumption.
 Qed.
